@@ -521,14 +521,22 @@ def build_cases(ctx, rng):
             idx += 1
     if len(cases) < 1000:
         raise MachineryError("generation produced only %d cases" % len(cases))
-    nint, nreal = (30, 15) if ctx.quick else (300, 150)
+    nint, nreal = (30, 15) if ctx.quick else (200, 100)
+    big = []
     for j in range(nint):
-        cases.append(random_case(rng, idx))
+        big.append(random_case(rng, idx))
         idx += 1
     for j in range(nreal):
-        cases.append(random_case(rng, idx, real_kind=["lr", "svc", "lr_proba"][j % 3]))
+        big.append(random_case(rng, idx, real_kind=["lr", "svc", "lr_proba"][j % 3]))
         idx += 1
-    return cases, gen_states
+    # the large cases cost ~100x a small one: spread them evenly over the list (load balance of the fork pool)
+    step = max(1, len(cases) // len(big))
+    out = []
+    for j, c in enumerate(cases):
+        if j % step == 0 and big:
+            out.append(big.pop())
+        out.append(c)
+    return out + big, gen_states
 
 
 def case_key(c):
@@ -549,11 +557,11 @@ def run(ctx):
         # ---------------- drive the real code ----------------
         ctx.phase("driving (+ model checking in the background)")
         run_case(cases[0])
-        run_case(cases[-1])                              # warm up imports / numba / sklearn before forking
+        run_case(next(c for c in cases if c["est"]["kind"] != "int"))   # warm up imports / numba / sklearn before forking
 
         def one(i):
             return run_case(cases[i])
-        per_case = pmap(one, len(cases), chunk=8)
+        per_case = pmap(one, len(cases), chunk=4)
         ctx.phase("model_checking (rest)")
         mfut.result()
     ctx.cov["states"] += gen_states
@@ -575,7 +583,7 @@ def run(ctx):
                               "preds": t["preds"] if c["n"] <= 6 else len(t["preds"])}})
     # ---------------- (V) ----------------
     ctx.phase("validation")
-    verdicts = ctx.validate("ModelFitTrace", "Trace.cfg", traces, max_per_shard=6000)
+    verdicts = ctx.validate("ModelFitTrace", "Trace.cfg", traces, max_per_shard=10000, timeout=3000)
     stats = {"runs": len(traces), "runs_shuffle_on": 0, "runs_shuffle_off": 0, "aborted_runs_accepted": 0,
              "incomparable_real_pairs": 0, "rejected": 0, "rejected_shuffle_off": 0}
     rejected = []
@@ -608,8 +616,10 @@ def run(ctx):
     ctx.phase("negative_controls")
     crng = np.random.default_rng(ctx.seed + 1)
     acc = [t for t in traces if verdicts[t["tid"]]["accept"] and verdicts[t["tid"]].get("info") != "ood"]
-    if not acc:
+    if not acc and not (ctx.violations or ctx.known_hits):
         raise MachineryError("no accepted trace to corrupt")
+    if not acc:
+        return ctx.finish(rule="every trace was rejected; negative controls skipped", exhaustive=False)
     groups = {"two labels of a fit event swapped": [], "a row dropped from a fit event": [],
               "predictions shifted by one row": []}
     big = [t for t in acc if t["n"] > 6]
